@@ -195,7 +195,7 @@ func runC09(env *Env) {
 			env.Count("shape/template-size-boundary")
 		}
 	}
-	n := 500
+	n := 300
 	if env.Thorough() {
 		n = 20000
 	}
